@@ -149,9 +149,6 @@ func comparePrefixTable(r *Reporter, rule, key, pos string, got map[string]int) 
 }
 
 func checkPrefixTables(r *Reporter, p *Prog, rule string) {
-	infoSer := p.Pkg(pkgSer).TypesInfo
-	infoStr := p.Pkg(pkgStream).TypesInfo
-	isLenType := func(e ast.Expr) bool { return exprKey(e) == "lenType" }
 	// declared constants
 	declared := 0
 	for name := range prefixConsts {
@@ -162,117 +159,159 @@ func checkPrefixTables(r *Reporter, p *Prog, rule string) {
 	if declared != 4 || p.Pkg(pkgSer).Types.Scope().Lookup("SeriLengthPrefixTypeAsUint128") != nil {
 		r.Fail(rule, "declared SeriLengthPrefixType constants", "-", fmt.Sprintf("expected exactly the four tabled constants, found %d of them", declared))
 	}
-	// serializer.writeSliceLength
-	if fd := p.FuncDecl(pkgSer, "Serializer", "writeSliceLength"); fd == nil {
-		r.Unresolved(rule, pkgSer+".Serializer.writeSliceLength", "function not found")
-	} else {
-		got, _ := prefixWidths(switchCases(fd, isLenType), func(cc *ast.CaseClause) int {
-			w := 0
-			ast.Inspect(cc, func(n ast.Node) bool {
-				cl, ok := n.(*ast.CallExpr)
-				if !ok {
-					return true
-				}
-				k := exprKey(cl.Fun)
-				if strings.HasSuffix(k, ".buf.WriteByte") {
-					w = 1
-				}
-				if k == "binary.Write" && len(cl.Args) == 3 {
-					if conv, ok := ast.Unparen(cl.Args[2]).(*ast.CallExpr); ok {
-						w = widthOfTypeName(exprKey(conv.Fun))
-					}
-				}
-				return true
-			})
-			return w
-		})
-		comparePrefixTable(r, rule, pkgSer+".Serializer.writeSliceLength", p.posStr(fd.Pos()), got)
-	}
-	if fd := p.FuncDecl(pkgSer, "Deserializer", "readSliceLength"); fd == nil {
-		r.Unresolved(rule, pkgSer+".Deserializer.readSliceLength", "function not found")
-	} else {
-		got, _ := prefixWidths(switchCases(fd, isLenType), func(cc *ast.CaseClause) int {
-			w := 0
-			ast.Inspect(cc, func(n ast.Node) bool {
-				if as, ok := n.(*ast.AssignStmt); ok && len(as.Lhs) == 1 && exprKey(as.Lhs[0]) == "l" && as.Tok == token.ASSIGN {
-					if v, ok := constInt(infoSer, as.Rhs[0]); ok {
-						w = int(v)
-					}
-				}
-				return true
-			})
-			return w
-		})
-		comparePrefixTable(r, rule, pkgSer+".Deserializer.readSliceLength", p.posStr(fd.Pos()), got)
-	}
-	if fd := p.FuncDecl(pkgStream, "", "writeFixedSize"); fd == nil {
-		r.Unresolved(rule, pkgStream+".writeFixedSize", "function not found")
-	} else {
-		got, _ := prefixWidths(switchCases(fd, isLenType), func(cc *ast.CaseClause) int {
-			w := 0
-			ast.Inspect(cc, func(n ast.Node) bool {
-				if cl, ok := n.(*ast.CallExpr); ok && exprKey(cl.Fun) == "Write" && len(cl.Args) == 2 {
-					if conv, ok := ast.Unparen(cl.Args[1]).(*ast.CallExpr); ok {
-						w = widthOfTypeName(exprKey(conv.Fun))
-					}
-				}
-				return true
-			})
-			return w
-		})
-		comparePrefixTable(r, rule, pkgStream+".writeFixedSize", p.posStr(fd.Pos()), got)
-	}
-	if fd := p.FuncDecl(pkgStream, "", "readFixedSize"); fd == nil {
-		r.Unresolved(rule, pkgStream+".readFixedSize", "function not found")
-	} else {
-		got, _ := prefixWidths(switchCases(fd, isLenType), func(cc *ast.CaseClause) int {
-			w := 0
-			ast.Inspect(cc, func(n ast.Node) bool {
-				if ix, ok := n.(*ast.IndexExpr); ok && exprKey(ix.X) == "Read" {
-					w = widthOfTypeName(exprKey(ix.Index))
-				}
-				return true
-			})
-			return w
-		})
-		comparePrefixTable(r, rule, pkgStream+".readFixedSize", p.posStr(fd.Pos()), got)
-	}
-	_ = infoStr
-	// range check on write: a length that does not fit the prefix must be rejected, not truncated
-	for _, w := range []struct{ pkg, recv, name string }{{pkgSer, "Serializer", "writeSliceLength"}, {pkgStream, "", "writeFixedSize"}} {
-		fd := p.FuncDecl(w.pkg, w.recv, w.name)
-		if fd == nil {
+	// For each of the four functions: every node that fixes a byte width (a one-byte write, a
+	// binary.Write / generic Write / Read[T] of a sized unsigned integer, a little-endian UintN
+	// read, a fixed slice of the source) must lie under the edge `lenType == C` of exactly the
+	// constant C with that width, and every constant must have such a node - whatever form the
+	// dispatch takes (switch, if chain, helper).
+	type fn struct{ pkg, recv, name string }
+	for _, w := range []fn{{pkgSer, "Serializer", "writeSliceLength"}, {pkgSer, "Deserializer", "readSliceLength"}, {pkgStream, "", "writeFixedSize"}, {pkgStream, "", "readFixedSize"}} {
+		key := w.pkg + "." + joinNonEmpty(".", w.recv, w.name)
+		f := p.CFGOf(w.pkg, w.recv, w.name)
+		if f == nil {
+			r.Unresolved(rule, key, "function not found")
 			continue
 		}
+		info := f.Info
+		caseEdges := map[string][]Edge{}
+		f.forEachEdgeFact(func(e Edge, _ *cfg.Block, ft fact) {
+			rel, ok := relOf(ft.Atom)
+			if !ok {
+				return
+			}
+			if !ft.Pol {
+				rel = negRel(rel)
+			}
+			if rel.Op != "==" {
+				return
+			}
+			for c := range prefixConsts {
+				if strings.HasSuffix(rel.L, c) || strings.HasSuffix(rel.R, c) {
+					caseEdges[c] = append(caseEdges[c], e)
+				}
+			}
+		})
+		widthOf := func(n ast.Node) int {
+			switch x := n.(type) {
+			case *ast.CallExpr:
+				k := exprKey(x.Fun)
+				switch {
+				case strings.HasSuffix(k, ".WriteByte"):
+					return 1
+				case (k == "binary.Write" && len(x.Args) == 3) || (k == "Write" && len(x.Args) == 2):
+					if conv, ok := ast.Unparen(x.Args[len(x.Args)-1]).(*ast.CallExpr); ok {
+						return widthOfTypeName(exprKey(conv.Fun))
+					}
+				case strings.HasPrefix(k, "binary.LittleEndian.Uint"):
+					var bits int
+					fmt.Sscanf(strings.TrimPrefix(k, "binary.LittleEndian.Uint"), "%d", &bits)
+					return bits / 8
+				}
+			case *ast.IndexExpr:
+				if exprKey(x.X) == "Read" {
+					return widthOfTypeName(exprKey(x.Index))
+				}
+				if strings.HasSuffix(exprKey(x.X), ".src") && strings.HasSuffix(exprKey(x.Index), ".offset") {
+					return 1
+				}
+			case *ast.SliceExpr:
+				if strings.HasSuffix(exprKey(x.X), ".src") && x.High != nil {
+					if hb, ok := ast.Unparen(x.High).(*ast.BinaryExpr); ok && hb.Op == token.ADD {
+						if v, isConst := constInt(info, hb.Y); isConst {
+							return int(v)
+						}
+					}
+				}
+			}
+			return 0
+		}
+		got := map[string]map[int]bool{}
+		var stray []string
+		for _, b := range f.G.Blocks {
+			if !b.Live {
+				continue
+			}
+			for i, nd := range b.Nodes {
+				pt := Point{b, i}
+				inspectNoLit(nd, func(n ast.Node) bool {
+					wd := widthOf(n)
+					if wd == 0 {
+						return true
+					}
+					owner := ""
+					for c, edges := range caseEdges {
+						if _, only := f.OnlyThroughEdges(pt, edges); only {
+							owner = c
+						}
+					}
+					if owner == "" {
+						stray = append(stray, fmt.Sprintf("%s: a %d-byte prefix access outside any `lenType == constant` case", f.PosOf(pt), wd))
+						return true
+					}
+					if got[owner] == nil {
+						got[owner] = map[int]bool{}
+					}
+					got[owner][wd] = true
+					return true
+				})
+			}
+		}
 		var bad []string
-		for _, cs := range switchCases(fd, isLenType) {
-			for _, l := range cs.Labels {
-				wantMax := map[string]string{"SeriLengthPrefixTypeAsByte": "math.MaxUint8", "SeriLengthPrefixTypeAsUint16": "math.MaxUint16", "SeriLengthPrefixTypeAsUint32": "math.MaxUint32"}[l]
-				if wantMax == "" {
+		for c, want := range prefixConsts {
+			ws := got[c]
+			if len(ws) != 1 || !ws[want] {
+				var have []int
+				for x := range ws {
+					have = append(have, x)
+				}
+				sort.Ints(have)
+				bad = append(bad, fmt.Sprintf("%s: widths %v, want [%d]", c, have, want))
+			}
+		}
+		bad = append(bad, stray...)
+		sort.Strings(bad)
+		if len(bad) > 0 {
+			r.Fail(rule, key, f.P.posStr(f.Body.Pos()), "length-prefix table disagrees with the declared constants (a missing case panics or is rejected, a wrong width breaks the wire format): "+strings.Join(bad, "; "))
+		} else {
+			r.Pass(rule, key, f.P.posStr(f.Body.Pos()), "Byte->1, Uint16->2, Uint32->4, Uint64->8")
+		}
+		// range check on write: a length that does not fit the prefix must be rejected, not truncated
+		if w.name != "writeSliceLength" && w.name != "writeFixedSize" {
+			continue
+		}
+		var rbad []string
+		for c, maxName := range map[string]string{"SeriLengthPrefixTypeAsByte": "math.MaxUint8", "SeriLengthPrefixTypeAsUint16": "math.MaxUint16", "SeriLengthPrefixTypeAsUint32": "math.MaxUint32"} {
+			fits := f.RelEdges(func(rel Rel) bool { return rel.Op == "<=" && rel.R == maxName && rel.L != "" })
+			for _, b := range f.G.Blocks {
+				if !b.Live {
 					continue
 				}
-				ok := false
-				for _, st := range cs.Clause.Body {
-					is, isIf := st.(*ast.IfStmt)
-					if !isIf || len(is.Body.List) == 0 {
+				for i, nd := range b.Nodes {
+					pt := Point{b, i}
+					isWrite := false
+					inspectNoLit(nd, func(n ast.Node) bool {
+						if cl, ok := n.(*ast.CallExpr); ok && widthOf(cl) > 0 {
+							isWrite = true
+						}
+						return true
+					})
+					if !isWrite {
 						continue
 					}
-					_, endsInReturn := is.Body.List[len(is.Body.List)-1].(*ast.ReturnStmt)
-					if rel, okR := relOf(is.Cond); okR && endsInReturn && rel.Op == "<" && rel.L == wantMax && rel.R == "l" {
-						ok = true
+					if _, only := f.OnlyThroughEdges(pt, caseEdges[c]); !only {
+						continue
 					}
-					break // must be the first statement of the case: before the write
-				}
-				if !ok {
-					bad = append(bad, l+": no `l > "+wantMax+"` rejection before the write")
+					if _, only := f.OnlyThroughEdges(pt, fits); !only {
+						rbad = append(rbad, fmt.Sprintf("%s: the %s prefix is written without having established length <= %s", f.PosOf(pt), c, maxName))
+					}
 				}
 			}
 		}
-		key := w.pkg + "." + joinNonEmpty(".", w.recv, w.name) + " range check"
-		if len(bad) > 0 {
-			r.Fail(rule, key, p.posStr(fd.Pos()), "a collection length that does not fit the prefix width would be silently truncated on the wire: "+strings.Join(bad, "; "))
+		sort.Strings(rbad)
+		if len(rbad) > 0 {
+			r.Fail(rule, key+" range check", f.P.posStr(f.Body.Pos()), "a collection length that does not fit the prefix width would be silently truncated on the wire: "+strings.Join(rbad, "; "))
 		} else {
-			r.Pass(rule, key, p.posStr(fd.Pos()), "lengths above the prefix range are rejected before writing")
+			r.Pass(rule, key+" range check", f.P.posStr(f.Body.Pos()), "lengths above the prefix range are rejected before writing")
 		}
 	}
 }
@@ -1245,46 +1284,49 @@ func checkPrefixBoundedLoops(r *Reporter, c *Ctx, p *Prog) {
 			continue
 		}
 		info := rw.p.Pkg(rw.pkg).TypesInfo
-		var loop *ast.RangeStmt
-		ast.Inspect(fd.Body, func(n ast.Node) bool {
-			if rs, ok := n.(*ast.RangeStmt); ok && exprKey(rs.X) == rw.bound {
-				loop = rs
-			}
-			return true
-		})
-		if loop == nil {
-			r.Fail("loop/fallible-per-iteration", key, rw.p.posStr(fd.Pos()), "no loop bounded by "+rw.bound)
-			continue
-		}
-		lf := newFuncCFG(rw.p, info, loop.Body, key)
+		f := newFuncCFG(rw.p, info, fd.Body, key)
+		// the loops of the function (any source form) and the input-consuming calls inside them
 		nConsumers := 0
 		var bad []string
-		for _, cl := range lf.Calls(func(cl *ast.CallExpr) bool {
+		var loopPos string
+		for _, cl := range f.Calls(func(cl *ast.CallExpr) bool {
 			_, isErr := lastResultIsError(info, cl)
 			return isErr && calleeShort(info, cl) == rw.consumer
 		}) {
+			cpt, ok := f.PointOf(cl)
+			if !ok {
+				continue
+			}
+			var inLoop *loopInfo
+			for _, l := range f.Loops() {
+				l := l
+				if f.InLoopBody(l, cpt) {
+					inLoop = &l
+				}
+			}
+			if inLoop == nil {
+				continue // a consuming call outside any loop is not a per-iteration obligation
+			}
 			nConsumers++
-			_, fails := lf.ErrEdges(cl)
+			loopPos = rw.p.posStr(inLoop.Stmt.Pos())
+			_, fails := f.ErrEdges(cl)
 			if len(fails) == 0 {
 				bad = append(bad, rw.p.posStr(cl.Pos())+": the error of "+rw.consumer+" is not tested")
 			}
 			for _, e := range fails {
-				// the failure edge must lead to a return (leaving the loop)
-				if w, found := lf.reach(Point{e.From.Succs[e.Succ], 0}, &searchOpts{AvoidNode: func(n ast.Node) bool {
-					rs, isRet := n.(*ast.ReturnStmt)
-					return isRet && rs.Return != loop.Body.Rbrace // go/cfg ends a body with a synthetic return at the brace
-				}}, func(pt Point, atExit bool) bool { return atExit }); found {
+				// from the failure edge the loop head must not be reachable any more
+				if w, found := f.reachBlock(Point{e.From.Succs[e.Succ], 0}, nil, func(b *cfg.Block) bool { return b == inLoop.Head }, false); found {
 					bad = append(bad, rw.p.posStr(cl.Pos())+": a failure of "+rw.consumer+" does not leave the loop: "+strings.Join(w, " -> "))
 				}
 			}
 		}
 		switch {
 		case nConsumers == 0:
-			r.Fail("loop/fallible-per-iteration", key, rw.p.posStr(loop.Pos()), "a loop bounded by a decoded length must consume input through the fallible call "+rw.consumer+" in every iteration; none found")
+			r.Fail("loop/fallible-per-iteration", key, rw.p.posStr(fd.Pos()), "a loop bounded by a decoded length must consume input through the fallible call "+rw.consumer+" in every iteration; no such call inside a loop found")
 		case len(bad) > 0:
-			r.Fail("loop/fallible-per-iteration", key, rw.p.posStr(loop.Pos()), "a loop bounded by a decoded length keeps iterating after its input-consuming call failed: a huge prefix iterates without input", bad...)
+			r.Fail("loop/fallible-per-iteration", key, loopPos, "a loop bounded by a decoded length keeps iterating after its input-consuming call failed: a huge prefix iterates without input", bad...)
 		default:
-			r.Pass("loop/fallible-per-iteration", key, rw.p.posStr(loop.Pos()), fmt.Sprintf("%d input-consuming call(s) per iteration, every failure returns: truncated input ends the loop", nConsumers))
+			r.Pass("loop/fallible-per-iteration", key, loopPos, fmt.Sprintf("%d input-consuming call(s) per iteration, every failure leaves the loop: truncated input ends it", nConsumers))
 		}
 	}
 }
@@ -1451,26 +1493,57 @@ func runC03(c *Ctx) {
 	if fd := p.FuncDecl(pkgSer, "Deserializer", "ReadBool"); fd == nil {
 		r.Unresolved("bool/strict", pkgSer+".Deserializer.ReadBool", "function not found")
 	} else {
-		cases := switchCases(fd, func(e ast.Expr) bool { return strings.Contains(exprKey(e), ".src[") })
-		got := map[string]string{}
-		for _, cs := range cases {
-			body := ""
-			for _, st := range cs.Clause.Body {
-				switch x := st.(type) {
-				case *ast.AssignStmt:
-					body += exprKey(x.Lhs[0]) + "=" + exprKey(x.Rhs[0]) + ";"
-				case *ast.ReturnStmt:
-					body += "return;"
-				}
+		// whatever the dispatch form: false only on the byte==0 edge, true only on the byte==1
+		// edge, and the offset advances (the byte is accepted) only through one of these edges
+		f := newFuncCFG(p, p.Pkg(pkgSer).TypesInfo, fd.Body, "ReadBool")
+		byteIs := func(v string) []Edge {
+			return f.RelEdges(func(rel Rel) bool {
+				return rel.Op == "==" && (rel.R == v && strings.Contains(rel.L, ".src[") || rel.L == v && strings.Contains(rel.R, ".src["))
+			})
+		}
+		zero, one := byteIs("0"), byteIs("1")
+		assigns := func(v string) []Point {
+			return f.Find(func(n ast.Node) bool {
+				as, ok := n.(*ast.AssignStmt)
+				return ok && len(as.Lhs) == 1 && len(as.Rhs) == 1 && exprKey(as.Lhs[0]) == "*dest" && exprKey(as.Rhs[0]) == v
+			})
+		}
+		advance := f.Find(func(n ast.Node) bool {
+			switch x := n.(type) {
+			case *ast.AssignStmt:
+				return len(x.Lhs) == 1 && strings.HasSuffix(exprKey(x.Lhs[0]), ".offset")
+			case *ast.IncDecStmt:
+				return strings.HasSuffix(exprKey(x.X), ".offset")
 			}
-			for _, l := range cs.Labels {
-				got[l] = body
+			return false
+		})
+		var bad []string
+		if len(zero) == 0 || len(one) == 0 {
+			bad = append(bad, "no test of the byte against 0 and against 1")
+		}
+		fs, ts := assigns("false"), assigns("true")
+		if len(fs) == 0 || len(ts) == 0 || len(advance) == 0 {
+			bad = append(bad, "expected *dest = false, *dest = true and an offset advance")
+		}
+		for _, pt := range fs {
+			if _, only := f.OnlyThroughEdges(pt, zero); !only {
+				bad = append(bad, f.PosOf(pt)+": false is stored for a byte other than 0")
 			}
 		}
-		if got["0"] == "*dest=false;" && got["1"] == "*dest=true;" && strings.Contains(got["default"], "return;") && strings.Contains(got["default"], ".err=") && len(got) == 3 {
-			r.Pass("bool/strict", pkgSer+".Deserializer.ReadBool", p.posStr(fd.Pos()), "0 -> false, 1 -> true, anything else -> error")
+		for _, pt := range ts {
+			if _, only := f.OnlyThroughEdges(pt, one); !only {
+				bad = append(bad, f.PosOf(pt)+": true is stored for a byte other than 1")
+			}
+		}
+		for _, pt := range advance {
+			if w, only := f.OnlyThroughEdges(pt, append(append([]Edge{}, zero...), one...)); !only {
+				bad = append(bad, f.PosOf(pt)+": the byte is consumed although it is neither 0 nor 1: "+strings.Join(w, " -> "))
+			}
+		}
+		if len(bad) == 0 {
+			r.Pass("bool/strict", pkgSer+".Deserializer.ReadBool", p.posStr(fd.Pos()), "0 -> false, 1 -> true, anything else is not consumed (error)")
 		} else {
-			r.Fail("bool/strict", pkgSer+".Deserializer.ReadBool", p.posStr(fd.Pos()), fmt.Sprintf("booleans must decode strictly (0/1, error otherwise); found %v", got))
+			r.Fail("bool/strict", pkgSer+".Deserializer.ReadBool", p.posStr(fd.Pos()), "booleans must decode strictly (0/1, error otherwise): "+bad[0], bad...)
 		}
 	}
 	if s, fd := srcOf(p, pkgSer, "Serializer", "WriteBool"); fd != nil {
@@ -1532,7 +1605,25 @@ func runC03(c *Ctx) {
 		r.Unresolved("canonical/map", pkgSerix+".API.decodeMap", "function not found")
 	} else {
 		s, _ := srcOf(p, pkgSerix, "API", "decodeMap")
-		okOrder := strings.Contains(s, "ts=ts.ensureOrdering()")
+		_ = s
+		// the settings handed to the sequence decoder are the result of ensureOrdering()
+		okOrder := false
+		{
+			df := newFuncCFG(p, infoX, fd.Body, "decodeMap")
+			for _, cl := range df.Calls(func(cl *ast.CallExpr) bool { return strings.HasSuffix(exprKey(cl.Fun), ".decodeSequence") }) {
+				cpt, okp := df.PointOf(cl)
+				if !okp {
+					continue
+				}
+				for _, a := range cl.Args {
+					if re, _ := df.Resolve(a, cpt); re != nil {
+						if rc, isCall := ast.Unparen(re).(*ast.CallExpr); isCall && strings.HasSuffix(rawKey(rc.Fun), ".ensureOrdering") {
+							okOrder = true
+						}
+					}
+				}
+			}
+		}
 		var lit *ast.FuncLit
 		ast.Inspect(fd.Body, func(n ast.Node) bool {
 			if as, ok := n.(*ast.AssignStmt); ok && len(as.Lhs) == 1 && exprKey(as.Lhs[0]) == "deserializeItem" {
